@@ -86,6 +86,31 @@ fn main() {
             }
             0
         }
+        Some("stagetime") => {
+            // debug: time apply_args / apply_fees / reduce on every tx of a source file
+            let src = std::fs::read_to_string(args.get(2).expect("file")).expect("read");
+            let l = front::lower_all(&src).expect("front end");
+            for (k, tx) in l {
+                let mut a = tx3_tir::reduce::ArgMap::new();
+                for (n, ty) in tx3_tir::reduce::find_params(&tx) {
+                    let v = match ty {
+                        tx3_tir::model::core::Type::Int => tx3_tir::reduce::ArgValue::Int(2_000_000),
+                        tx3_tir::model::core::Type::Address => tx3_tir::reduce::ArgValue::Address(gen::addr_for(0, false, false)),
+                        _ => tx3_tir::reduce::ArgValue::Bytes(vec![1, 2, 3]),
+                    };
+                    a.insert(n, v);
+                }
+                let t0 = std::time::Instant::now();
+                let x = tx3_tir::reduce::apply_args(tx, &a).expect("args");
+                let t1 = std::time::Instant::now();
+                let x = tx3_tir::reduce::apply_fees(x, 200_000).expect("fees");
+                let t2 = std::time::Instant::now();
+                let x = tx3_tir::reduce::reduce(x);
+                let t3 = std::time::Instant::now();
+                println!("{k}: apply_args {:?} apply_fees {:?} reduce {:?} ok={}", t1 - t0, t2 - t1, t3 - t2, x.is_ok());
+            }
+            0
+        }
         Some("show") => {
             // show one world's expansion
             let prop = arg_val(&args, "--property").expect("--property");
